@@ -1,5 +1,6 @@
 import Hv.Driver.Core
 import Hv.Vmtar
+import Hv.VmtarEnc
 namespace Hv.Driver
 open Hv
 
@@ -13,7 +14,32 @@ def fmtMember (f : File) (m : Vmtar.Member) : String :=
     hexOf h.uname, hexOf h.gname, hexOf m.linkname, toString m.offset, toString m.offsetData,
     (if h.isVisor then "1" else "0"), toString h.vTextPgs, toString h.vFixUpPgs]
 
+/-- `<namehex>,<d|f>,<-|off>,<datahex>,<mode>,<uid>,<gid>,<mtime>` (empty hex strings are written `-`) -/
+def parseSpec (t : String) : Option Vmtar.MemberSpec :=
+  let hx (h : String) : Option Bytes := if h == "-" then some [] else (parseHex h).map (·.toList)
+  match t.splitOn "," with
+  | [n, k, v, d, mo, u, g, mt] => do
+    let name ← hx n
+    let data ← hx d
+    let visor ← (if v == "-" then some none else v.toNat?.map some)
+    some { name, isDir := k == "d", visor, data, mode := ← mo.toNat?, uid := ← u.toNat?, gid := ← g.toNat?, mtime := ← mt.toNat? }
+  | _ => none
+
+/-- the writer of the round-trip theorem, run: `ok <wf> <rt> <hex of the archive>`; `rt` = the instance of
+    `vmtar_members_roundtrip` on this input, evaluated (listing = expected, extraction = stored bytes) -/
+def vmtarEnc (size seed : Nat) (ms : List Vmtar.MemberSpec) : String :=
+  let L : Vmtar.Layout := ⟨size, fun i => UInt8.ofNat ((i * 131 + seed) % 251)⟩
+  let f := Vmtar.encode ms L
+  let wf := Vmtar.wfb ms L
+  let rt := decide (Vmtar.list f true = .ok (Vmtar.expected 0 ms)) &&
+    decide ((Vmtar.expected 0 ms).map (Vmtar.extract f) = ms.map Vmtar.MemberSpec.stored)
+  s!"ok {if wf then 1 else 0} {if rt then 1 else 0} {hexOf (f.read 0 f.size)}"
+
 def vmtarCmd (st : St) : List String → String
+  | "vmtar.enc" :: size :: seed :: specs =>
+    match size.toNat?, seed.toNat?, specs.mapM parseSpec with
+    | some sz, some sd, some ms => if sz > 1048576 then "bad-size" else vmtarEnc sz sd ms
+    | _, _, _ => "bad-cmd"
   | ["vmtar.list", id, aware] =>
     match st.file? id with
     | none => "bad-file"
